@@ -210,3 +210,42 @@ g3! {
     c04_cover_g3_05: 0,5; c04_cover_g3_15: 1,5; c04_cover_g3_25: 2,5; c04_cover_g3_35: 3,5; c04_cover_g3_45: 4,5; c04_cover_g3_55: 5,5; c04_cover_g3_65: 6,5;
     c04_cover_g3_06: 0,6; c04_cover_g3_16: 1,6; c04_cover_g3_26: 2,6; c04_cover_g3_36: 3,6; c04_cover_g3_46: 4,6; c04_cover_g3_56: 5,6; c04_cover_g3_66: 6,6;
 }
+
+// ---- sub-pixel triangles: quarter-pixel lattice of a single pixel --------------------------
+// Vertices at k/4, k in [0,4], inside one pixel: the only centre is (1/2, 1/2).  Triangles much
+// smaller than a pixel may or may not contain it; quadrupled coordinates keep the oracle exact.
+
+#[kani::proof]
+#[kani::unwind(5)]
+fn c04_cover_subpixel() {
+    let k = [lat(0, 4), lat(0, 4), lat(0, 4), lat(0, 4), lat(0, 4), lat(0, 4)];
+    let area2 = edge(k[0], k[1], k[2], k[3], k[4], k[5]);
+    kani::assume(area2 != 0);
+    let vs = [
+        vertex(pt3(k[0] as f32 * 0.25, k[1] as f32 * 0.25, 1.0), ()),
+        vertex(pt3(k[2] as f32 * 0.25, k[3] as f32 * 0.25, 1.0), ()),
+        vertex(pt3(k[4] as f32 * 0.25, k[5] as f32 * 0.25, 1.0), ()),
+    ];
+    let mut count = 0u32;
+    let mut ok = true;
+    let mut rows = 0u32;
+    tri_fill(vs, |sl| {
+        rows += 1;
+        let n = sl.vs.count();
+        if n != sl.xs.end.saturating_sub(sl.xs.start) { ok = false; }
+        if sl.y != 0 || sl.xs.end > 1 { ok = false; }
+        count += n as u32;
+    });
+    assert!(ok && rows <= 1);
+    // the centre in quadrupled coordinates is (2, 2)
+    let e0 = edge(k[0], k[1], k[2], k[3], 2, 2);
+    let e1 = edge(k[2], k[3], k[4], k[5], 2, 2);
+    let e2 = edge(k[4], k[5], k[0], k[1], 2, 2);
+    let inside = (e0 > 0 && e1 > 0 && e2 > 0) || (e0 < 0 && e1 < 0 && e2 < 0);
+    let outside = (area2 > 0 && (e0 < 0 || e1 < 0 || e2 < 0)) || (area2 < 0 && (e0 > 0 || e1 > 0 || e2 > 0));
+    if inside { assert!(count == 1); }
+    if outside { assert!(count == 0); }
+    assert!(count <= 1);
+    kani::cover!(inside && (k[1].max(k[3]).max(k[5]) - k[1].min(k[3]).min(k[5])) == 2, "half a pixel high, centre inside");
+    kani::cover!(outside, "centre outside");
+}
